@@ -1,8 +1,71 @@
 //! Verification hook (compiled only with `--cfg quinn_rs_quinn_verif`).
+//!
+//! Component `zero_rtt`: 0-RTT rejection of the stream / flow-control state compared with a
+//! brand-new `StreamsState`.
+//!
+//! Same operations and observations as component `flow_send` (see `flow_send.rs`), plus
+//! ```text
+//!  [20, max_data?, streams_bidi?, streams_uni?, sd_bidi_local?, sd_bidi_remote?, sd_uni?]
+//! ```
+//! which performs, on the state under test A, `zero_rtt_rejected()` (+ discarding the sent-frame
+//! log and the queued `Retransmits`, as `Connection` does) followed by `set_params(p)`, and
+//! creates a twin B = `StreamsState::new(same side / remote limits, A's current send window)`
+//! followed by `set_params(p)`. From then on every op is applied to both A and B.
+//! Observation of op 20 and of every later op: `[len(a)] ++ a ++ b` where `a`/`b` are the
+//! observations of A and B; for op 20 itself `a`/`b` are the full projections (`observe`) followed
+//! by the summary. Before op 20 observations are exactly those of `flow_send`.
 #![allow(missing_docs, dead_code, unused_imports, unreachable_pub, clippy::all)]
+use super::flow_send::{Ctx, params_of};
 use super::{Ops, Outs};
+use crate::Side;
 
-/// Interpret `ops` for component `comp`; `None` if `comp` is not served by this module.
-pub(crate) fn run(_comp: &str, _ops: &Ops) -> Option<Outs> {
-    None
+fn pair(a: Vec<i128>, b: Vec<i128>) -> Vec<i128> {
+    let mut o = vec![a.len() as i128];
+    o.extend(a);
+    o.extend(b);
+    o
+}
+
+fn zero_rtt(ops: &Ops) -> Outs {
+    let mut a = Ctx::new(Side::Client, 0, 0, 1 << 20);
+    let mut twin: Option<Ctx> = None;
+    let mut outs = Vec::new();
+    for op in ops.iter() {
+        if op.first() == Some(&20) {
+            let args: Vec<i128> = (1..7).map(|i| op.get(i).cloned().unwrap_or(0)).collect();
+            let Some(p) = params_of(&args) else {
+                let mut o = vec![-2];
+                o.extend(a.summary());
+                outs.push(o);
+                continue;
+            };
+            a.apply(&[14]);
+            a.st.set_params(&p);
+            let mut b = Ctx::new(a.side, a.max_remote_uni, a.max_remote_bi, a.st.send_window);
+            b.st.set_params(&p);
+            let mut oa = a.observe();
+            oa.extend(a.summary());
+            let mut ob = b.observe();
+            ob.extend(b.summary());
+            outs.push(pair(oa, ob));
+            twin = Some(b);
+            continue;
+        }
+        let oa = a.step(op);
+        match twin.as_mut() {
+            None => outs.push(oa),
+            Some(b) => {
+                let ob = b.step(op);
+                outs.push(pair(oa, ob));
+            }
+        }
+    }
+    outs
+}
+
+pub(crate) fn run(comp: &str, ops: &Ops) -> Option<Outs> {
+    match comp {
+        "zero_rtt" => Some(zero_rtt(ops)),
+        _ => None,
+    }
 }
